@@ -109,7 +109,7 @@ def run(ck):
             ck.violation("pos:" + r["kind"], "%s\n%s\n%s" % (problems[0], r["msg"], p["src"]), {"program": p, "model": cands, "real": r})
             continue
         t = twin[p["id"]]
-        if t.get("msg") != r.get("msg"):
+        if len(ms) == 1 and t.get("msg") != r.get("msg"):
             ck.violation("twin-pos", "optimized and unoptimized code report different errors/positions:\n%s\n---\n%s\n%s" % (
                 r.get("msg"), t.get("msg"), p["src"]), {"program": p, "opt": r, "unopt": t})
             continue
